@@ -289,7 +289,8 @@ def obs_rebuilt(res, U):
 
     def go(n):
         a = info14(n._data, U)
-        return [H.nid(n), [a["eqc"], a["hash"], a["isstr"], a["name"], H.sx_did(n._data_id)],
+        explicit_nid = [n._node_id] if n._node_id != id(n) else []
+        return [H.nid(n), [a["eqc"], a["hash"], a["isstr"], a["name"], H.sx_did(n._data_id), explicit_nid],
                 [go(c) for c in (n._children or [])]]
     return [0, [go(c) for c in (res._root._children or [])]]
 
@@ -327,7 +328,7 @@ class Prop:
             "value-equal objects, tuples, ints, dataclasses; identity-hashed objects; '7' next to 7) x the 6 serialisation mappers (none / "
             "set data in place / wrap / new dict keeping or dropping data_id / extra entry read back by the decoder) with the inverse deserialisation mapper (at N nodes: 1 (quick) or 2 "
             "of the 6 mappers per tree); trees under a calc_data_id hook; typed trees; emptied trees (clear, remove of the last top "
-            "node); seeded random trees (5..18 nodes quick, 5..30 thorough); 16 hand-written and malformed dict lists; Node.from_dict "
+            "node); seeded random trees (5..18 nodes quick, 5..30 thorough); 47 hand-written and malformed dict lists (missing/unhashable data, bad data_id / node_id / children entries, non-dict items); Node.from_dict "
             "into every node of every forest <= 3 (thorough 4) nodes x 3 calc_data_id hooks x 6 item lists.  Every dump goes through "
             "json.dumps/json.loads before from_dict.  A case is one tree (or one dict list); distinct = distinct desc; non-trivial = >= 3 nodes")
     exhaustive_note = ("all shapes <= 3 nodes x all labelings (2 strings x 5 data_id choices; quick: 2 choices at 3 nodes); "
@@ -817,8 +818,13 @@ class Prop:
     def oracle_load(self, obj, rebuilt):
         items = item_dicts(obj)
 
+        nids = [it["node_id"] for it in items if it.get("node_id") is not None]
+        nids_ok = all(isinstance(x, int) and not isinstance(x, bool) and x != 0 for x in nids) and len(set(nids)) == len(nids)
+        if not nids_ok and all(isinstance(x, int) for x in nids) and not is_err(rebuilt):
+            return "from_dict: zero or duplicate node_id accepted"
+
         def wf(l):
-            return isinstance(l, list) and all(
+            return nids_ok and isinstance(l, list) and all(
                 isinstance(it, dict) and "data" in it and isinstance(it["data"], (str, int)) and not isinstance(it["data"], bool)
                 and (it.get("data_id") is None or (isinstance(it["data_id"], (str, int)) and not isinstance(it["data_id"], bool)))
                 and (not it.get("children") or wf(it["children"])) for it in l)
@@ -858,6 +864,8 @@ class Prop:
                     return f"from_dict data: {where}/{k}"
                 if r._data_id != eff(d):
                     return f"from_dict data_id: {where}/{k}: {r._data_id!r} expected {eff(d)!r}"
+                if d.get("node_id") is not None and r._node_id != d["node_id"]:
+                    return f"from_dict node_id: {where}/{k}: {r._node_id!r} expected {d['node_id']!r}"
                 e = same(d.get("children") or [], r._children or [], f"{where}/{k}")
                 if e:
                     return e
@@ -894,6 +902,28 @@ LOADS = [
     dict(load=[{"data": "a", "extra": 1, "children": [{"data": "a", "data_id": 7, "children": [{"data": "a"}]}]}]),
     dict(load=[{"data": 1}, {"data": True}]),
     dict(load=[{"data": -1}, {"data": -2}]),
+    # explicit node ids: kept, int()-converted, refused when zero / used twice; order of the checks
+    dict(load=[{"data": "a", "node_id": 5}, {"data": "b", "node_id": 6, "children": [{"data": "a", "node_id": 7}]}]),
+    dict(load=[{"data": "a", "node_id": 0}]),
+    dict(load=[{"data": "a", "node_id": 5}, {"data": "b", "node_id": 5}]),
+    dict(load=[{"data": "a", "node_id": 5, "children": [{"data": "b", "node_id": 5}]}]),
+    dict(load=[{"data": "a", "node_id": 5, "children": [{"data": "b", "node_id": 6}]}, {"data": "c", "node_id": 6}]),
+    dict(load=[{"data": "a", "node_id": "12"}, {"data": "b", "node_id": "012"}]),
+    dict(load=[{"data": "a", "node_id": "x"}]),
+    dict(load=[{"data": "a", "node_id": ""}]),
+    dict(load=[{"data": "a", "node_id": [1]}]),
+    dict(load=[{"data": "a", "node_id": {}}]),
+    dict(load=[{"data": "a", "node_id": True}, {"data": "b", "node_id": 1}]),
+    dict(load=[{"data": "a", "node_id": False}]),
+    dict(load=[{"data": "a", "node_id": None}, {"data": "b", "node_id": -3}]),
+    dict(load=[{"data": "a", "node_id": 5}, {"data": "a", "node_id": 5}]),
+    dict(load=[{"data": "a", "node_id": 0, "data_id": [1]}]),
+    dict(load=[{"data": "a", "node_id": "x", "data_id": [1]}]),
+    dict(load=[{"data": "a", "node_id": 3, "data_id": [1]}]),
+    dict(load=[{"data": "a"}, {"data": "a", "node_id": 0}]),
+    dict(load=[{"data": [1], "node_id": 0}]),
+    dict(load=[{"data": [1], "node_id": 0, "data_id": 4}]),
+    dict(load=[{"data": [1], "data_id": 5}, {"data": {"a": 1}, "data_id": "k", "children": [{"data": "x"}]}]),
     # items that are not dicts; "children" values that are not lists
     dict(load=[5]),
     dict(load=[{"data": "a"}, "a"]),
